@@ -8,9 +8,21 @@ depend on -tasks.  Exit status 0 ⇔ at least one result.  `readFileLines`
 returns exactly lines Start..End, each followed by a newline, whenever the file
 has that many lines (no line-length limit, as repaired).  Process, file system
 and JSON encoding are outside the model; the harness runs the real binary.
+
+The worker pool (`LC.Pool`): every worker hands its task slot back and signals
+completion in the order the source gives (regenerated from the AST,
+`LC.Gen.CliProtocol.analyzeDefer`); the closer closes the task channel once all
+completions are in.  With the order as repaired (send, then done) no execution —
+any number of workers, any interleaving — sends on the closed channel
+(`no_send_after_close`); with the order the code had (done, then send) one does
+(`old_order_can_panic`): the tool then died with exit status 2 after printing
+its results (observed by the thorough tier under load; fix afd45e4).
 -/
 import LC.Model.V1Glue
 import LC.Proofs.V1Glue
+import LC.Model.Pool
+import LC.Proofs.Pool
+import LC.Gen.CliProtocol
 
 namespace LC.V1Glue
 
@@ -35,3 +47,18 @@ theorem readLines_short (lines : List String) (s e : Nat) (he : lines.length < e
   readLines_short' lines s e he
 
 end LC.V1Glue
+
+namespace LC.Pool
+
+/-- The source, as it is now, hands the slot back before it signals completion. -/
+theorem defer_order_current : orderOf LC.Gen.CliProtocol.analyzeDefer = some .sendThenDone := by decide
+
+/-- With that order no worker ever sends on the closed task channel. -/
+theorem no_send_after_close (n : Nat) (tr : List Act) (h : Exec .sendThenDone n tr) : ¬ SendAfterClose tr :=
+  no_send_after_close' n tr h
+
+/-- With the order the code had, one worker is enough: done, close, send. -/
+theorem old_order_can_panic : ∃ tr, Exec .doneThenSend 1 tr ∧ SendAfterClose tr :=
+  old_order_can_panic'
+
+end LC.Pool
